@@ -13,6 +13,7 @@ E1 real-*:  secp256k1 boundary scalars / point pairs / encodings against the Jac
 Every scalar multiplication is evaluated under a per-evaluation SIGALRM guard: an evaluation that has not returned
 after LIMIT_* seconds (thousands of times its normal cost) is reported as "does-not-terminate".
 """
+import functools
 import itertools
 import signal
 import threading
@@ -848,6 +849,21 @@ def real_points(tier):
     return out
 
 
+@functools.lru_cache(maxsize=1)
+def leadbyte_points():
+    """one multiple of G for every value 0x01..0xff of the FIRST byte of x (found by walking G, 2G, 3G, ...): the first
+    byte of an x-only key can collide with a SEC prefix (02, 03, 04) or any other marker a decoder might look at"""
+    c = ec.SECP
+    found, Q, k = {}, c.g, 1
+    while len(found) < 255 and k < 20000:
+        b = Q[0] >> 248
+        if b and b not in found:
+            found[b] = Q
+        Q = c.add(Q, c.g)
+        k += 1
+    return [found[b] for b in sorted(found)]
+
+
 PT_SCALARS = [2, -1, 2**255, 2**256 - 1, N // 2, N // 2 + 1, -(2**300) - 7]
 
 
@@ -982,6 +998,10 @@ def gen_real_enc(tier, seed):
     cases = [{"kind": "roundtrip", "a": str(a % N)} for a in ss]
     # points that are not multiples of G by a boundary scalar (tiny x: 31 bytes of zero padding; equal-y triples)
     cases += [{"kind": "roundtrip", "a": "point", "pt": [str(Q[0]), str(Q[1])]} for Q in real_points(tier)]
+    # every value of the leading byte of x (x-only strings that start like a SEC prefix, ...), both y parities
+    for Q in leadbyte_points():
+        cases.append({"kind": "roundtrip", "a": "leadbyte", "pt": [str(Q[0]), str(Q[1])]})
+        cases.append({"kind": "roundtrip", "a": "leadbyte-neg", "pt": [str(Q[0]), str(PP - Q[1])]})
     c = ec.SECP
     Gx = c.g[0]
     # x without a square root
@@ -1092,7 +1112,7 @@ def run_real_enc(case):
                 res.ok("sec roundtrip", nontrivial=("sec", case["a"], case.get("pt"), comp))
         xo = attempt(o.xonly)
         if xo != ec.b32(P[0]) or un(attempt(pecc.S256Point.parse, xo)) != c.lift_x(P[0]):
-            res.violation("C03/real-enc/xonly-roundtrip", vc, xo, ec.b32(P[0]), "xonly round trip wrong")
+            res.violation("C03/real-enc/xonly-roundtrip" + ("/by-leading-byte-of-x" if str(case["a"]).startswith("leadbyte") else ""), vc, xo, ec.b32(P[0]), "xonly round trip wrong")
         else:
             res.ok("xonly roundtrip", nontrivial=("xonly", case["a"], case.get("pt")))
         return res
@@ -1118,6 +1138,6 @@ def engines(tier, seed):
         es.append(Engine(f"toy-decode-{toy[0]}", gen_toy_decode(toy), run_toy_decode, toy=toy, kind="E3", rule=f"toy S256Point.parse on every 33-byte string (256 prefixes x x in [0,p+2] and two huge x), 65-byte strings (10 prefixes x all (x,y) in [0,p]^2; prefix 04: all (x,y) in [0,2p+2]^2 so that every point also occurs with x+p and/or y+p) and x-only strings: accepted iff the SEC1/BIP340 reference decoder accepts, same point; parse_xonly called directly on the same x values encoded in 0,1,2,16,31,33,34,64,65 bytes (zero padded, trailing zero, 02/03/04 prefixed, doubled): must be refused, and on 32 bytes: lift_x; parse_sec called directly with 9 prefixes on lengths 0,1,2,32,33,34,64,65,66 built from the same x (and both roots y): SEC1 reference; S256Field.sqrt on every element of the toy field vs the table of squares (32 zero bytes as x-only: counted skip)"))
     es += [
         Engine("real-mul", gen_real_mul, run_real_mul, kind="E1", rule="secp256k1: boundary scalars (0,1,n-1,n,n+1,negative,>2^256,+fillers): a*G, PrivateKey(a).point, n*P, aG+bG=(a+b)G (also through the library's == / !=), a(bG)=(ab)G, P+int against the Jacobian reference (itself cross-checked with an affine implementation); points not generated from boundary scalars: for the first 2 (thorough 4) small x on the curve the 6 points (x,±y), (beta x,±y), (beta^2 x,±y) (equal y, different x): all pairs X+Y (incl. == / !=) vs the affine reference, k*X for k in {2,-1,2^255,2^256-1,n/2,n/2+1,-(2^300)-7} on (x,y) and (beta x,y); scalar multiplications under a 120 s guard"),
-        Engine("real-enc", gen_real_enc, run_real_enc, kind="E1", rule="secp256k1: sec/xonly round trips on boundary points and on the small-x / equal-y points of real-mul; rejection catalogue (bad prefixes, x without square root, x >= p, off-curve y, wrong lengths incl. 65-byte strings with prefix 02/03, 04 || x+p || y for a curve point (x,y)); parse_xonly and parse_sec called directly on 25 strings of lengths 0,1,31,32,33,34,64,65,66 (zero padded, prefixed, truncated, extended): SEC1 / BIP340 reference, only 32 resp. 33/65 bytes can be accepted"),
+        Engine("real-enc", gen_real_enc, run_real_enc, kind="E1", rule="secp256k1: sec/xonly round trips on boundary points, on the small-x / equal-y points of real-mul and on one multiple of G (and its negation) for EVERY value 01..ff of the leading byte of x; rejection catalogue (bad prefixes, x without square root, x >= p, off-curve y, wrong lengths incl. 65-byte strings with prefix 02/03, 04 || x+p || y for a curve point (x,y)); parse_xonly and parse_sec called directly on 25 strings of lengths 0,1,31,32,33,34,64,65,66 (zero padded, prefixed, truncated, extended): SEC1 / BIP340 reference, only 32 resp. 33/65 bytes can be accepted"),
     ]
     return es
